@@ -391,6 +391,15 @@ func (rm *ResponseManager) finishTask(task *peertask.Task, p peer.ID, err error)
 	}
 	if _, ok := err.(hooks.ErrPaused); ok {
 		response.state = graphsync.Paused
+		// an abort (cancel by the requestor or the responder, network error) signalled to the executor
+		// after it had last looked at its signals was overtaken by the pause: nobody reads that signal
+		// while the response is paused, so act on it now
+		select {
+		case sigErr := <-response.signals.ErrSignal:
+			_ = rm.abortRequest(rm.ctx, requestID, sigErr)
+			return
+		default:
+		}
 		// updates that arrived after the executor stopped but before the pause was recorded here were
 		// queued for the executor, which is gone: handle them as updates to a paused response, otherwise
 		// an update that asks to unpause (e.g. sent in reply to the RequestPaused status) is lost
